@@ -526,12 +526,15 @@ def gen_async(seed: int, tier: str = "quick") -> Dict[str, Any]:
             if kind == "set_data":
                 calls.append({"kind": "set_data", "p": rng.choice([0.3, 0.7, 1.0]), "src_eid": "e0",
                               "dst": f"A.e{rng.randrange(A['n_ent'])}", "attr": "m_in"})
+                if rng.random() < 0.3:
+                    calls[-1]["also_src_eid"] = "e1"       # (the agent simulator gets two entities)
             elif kind == "get_data":
                 calls.append({"kind": "get_data", "p": rng.choice([0.5, 1.0]),
                               "dst": f"A.e{rng.randrange(A['n_ent'])}", "attrs": ["p_out"]})
             else:
                 calls.append({"kind": kind, "p": 0.5})
-        B = {"sid": f"B{i}", "type": "time-based", "group": 0, "n_ent": 1, "meta_style": 0,
+        B = {"sid": f"B{i}", "type": "time-based", "group": 0,
+             "n_ent": 2 if any(c.get("also_src_eid") for c in calls) else 1, "meta_style": 0,
              "stub": "async", "transport": rng.choice(["gated", "gated", "stock", "remote", "cmd"]),
              "beh": {"bseed": rng.randrange(1 << 30), "step_sizes": [rng.choice([1, 1, 2, 3, 4])],
                      "async_calls": calls}}
@@ -588,15 +591,26 @@ def gen_async(seed: int, tier: str = "quick") -> Dict[str, Any]:
            "start_seed": rng.choice([None, rng.randrange(1 << 30)]), "connect_seed": None,
            "order_seed": None, "iteration_cost": rng.choice([0.0, 1e-5])}
     groups = [None]
-    if rng.random() < 0.2:
+    if rng.random() < 0.25:
         # the whole plant/agent ensemble inside one simulator group (or the agents in a sub-group)
         groups = [None, 0]
         for s in sims:
             s["group"] = 1
-        if rng.random() < 0.4:
+        if rng.random() < 0.3:
             groups.append(1)
             for s in sims[1:k + 1]:
                 s["group"] = 2
+        elif a_type == "hybrid" and rng.random() < 0.6:
+            # the plant is re-stepped within one time step by a same-time loop with a partner
+            Q = {"sid": "Q", "type": "event-based", "group": 1, "n_ent": 1, "meta_style": 0, "init_event": None,
+                 "transport": rng.choice(["gated", "stock", "remote"]),
+                 "beh": {"bseed": rng.randrange(1 << 30), "p_self": 0.0, "p_out": 1.0, "loop_len": None}}
+            sims.append(Q)
+            qi = len(sims) - 1
+            A["beh"]["p_out"] = 1.0
+            A["beh"]["loop_len"] = rng.choice([1, 2])
+            conns.append({"src": 0, "se": 0, "dst": qi, "de": 0, "pairs": [["e_out", "t_in"]], "shift": 0, "weak": False})
+            conns.append({"src": qi, "se": 0, "dst": 0, "de": 0, "pairs": [["e_out", "t_in"]], "shift": 0, "weak": True})
     return {"groups": groups, "sims": sims, "conns": conns, "until": rng.choice([2, 3, 4, 5, 6, 8]),
             "config": cfg, "illegal_async": illegal}
 
